@@ -9,6 +9,7 @@ package main
 //    compared with the Lean model on generated indices at package level (c08idx.go).
 
 import (
+	"bytes"
 	"encoding/binary"
 	"encoding/json"
 	"fmt"
@@ -24,12 +25,12 @@ import (
 func init() { register("C08", runC08) }
 
 type lmScan struct {
-	size   map[uint64]int                          // body -> voxels
-	svs    map[uint64][]uint64                     // body -> supervoxels (sorted)
-	svSize map[uint64]int                          // supervoxel -> voxels
-	index  map[uint64]map[[3]int]map[uint64]int    // body -> block -> supervoxel -> voxels
-	mapped []uint64                                // body per voxel, x fastest
-	raw    []uint64                                // supervoxel per voxel
+	size   map[uint64]int                       // body -> voxels
+	svs    map[uint64][]uint64                  // body -> supervoxels (sorted)
+	svSize map[uint64]int                       // supervoxel -> voxels
+	index  map[uint64]map[[3]int]map[uint64]int // body -> block -> supervoxel -> voxels
+	mapped []uint64                             // body per voxel, x fastest
+	raw    []uint64                             // supervoxel per voxel
 }
 
 func scanVersion(n *wnode) *lmScan {
@@ -695,6 +696,252 @@ func (s *c08Sess) cleaveMergeBackEpisode() {
 	}
 }
 
+// bodySplitEpisode: a body with several supervoxels is split by a sparse volume (POST split/<label>, enabled in
+// the child's server configuration) that cuts some of its supervoxels and leaves others whole, differently per
+// block.  The server chooses the new supervoxel ids, so the stored supervoxel volume is read back and validated
+// (voxels of other bodies unchanged; every old supervoxel of the body is relabelled consistently per side of the
+// split; new ids are fresh) before it becomes the oracle; then every view of every version is checked.
+func (s *c08Sess) bodySplitEpisode() {
+	w := s.w
+	var n *wnode
+	for _, x := range w.open() {
+		if x.lm != nil {
+			n = x
+		}
+	}
+	if n == nil {
+		return
+	}
+	pick := func() (uint64, bool) {
+		var ids []uint64
+		for b, svs := range w.lmBodies(n) {
+			if len(svs) >= 2 {
+				ids = append(ids, b)
+			}
+		}
+		sort.Slice(ids, func(i, j int) bool { return ids[i] < ids[j] })
+		if len(ids) == 0 {
+			return 0, false
+		}
+		return ids[w.r.Intn(len(ids))], true
+	}
+	var label uint64
+	var in func(x, y, z int) bool
+	total := 0
+	if w.r.Bool() {
+		// directed layout: supervoxels A and B each cover half of two neighbouring blocks; they are merged, and
+		// the split cuts A only in the first block and B only in the second
+		sa, sb := w.nextSV, w.nextSV+1
+		w.nextSV += 2
+		for bx := 0; bx < 2; bx++ {
+			blk := make([]uint64, lmB*lmB*lmB)
+			exists := false
+			for z := 0; z < lmB; z++ {
+				for y := 0; y < lmB; y++ {
+					for x := 0; x < lmB; x++ {
+						if y < lmB/2 {
+							blk[(z*lmB+y)*lmB+x] = sa
+						} else {
+							blk[(z*lmB+y)*lmB+x] = sb
+						}
+						if n.lm.vox[(lmB+z)*lmN+lmB+y][bx*lmB+x] != 0 {
+							exists = true
+						}
+					}
+				}
+			}
+			path := fmt.Sprintf("node/%s/lm/raw/0_1_2/%d_%d_%d/%d_%d_%d", n.uuid, lmB, lmB, lmB, bx*lmB, lmB, lmB)
+			if exists {
+				path += "?mutate=true"
+			}
+			w.must("POST", path, u64le(blk))
+			for z := 0; z < lmB; z++ {
+				for y := 0; y < lmB; y++ {
+					copy(n.lm.vox[(lmB+z)*lmN+lmB+y][bx*lmB:bx*lmB+lmB], blk[(z*lmB+y)*lmB:(z*lmB+y)*lmB+lmB])
+				}
+			}
+			w.settle()
+		}
+		body, _ := json.Marshal([]uint64{sa, sb})
+		if r := w.must("POST", "node/"+n.uuid+"/lm/merge", body); !r.OK() {
+			return
+		}
+		n.lm.m[sb] = sa
+		w.log("episode: supervoxels %d and %d written over blocks (0,1,1),(1,1,1), merged into body %d at v%d", sa, sb, sa, n.v)
+		w.settle()
+		label = sa
+		k := 4 + w.r.Intn(8)
+		in = func(x, y, z int) bool {
+			if z < lmB || z >= lmB+k {
+				return false
+			}
+			return (x < k && y >= lmB && y < lmB+k) || (x >= lmB && x < lmB+k && y >= lmB+lmB/2 && y < lmB+lmB/2+k)
+		}
+		for z := 0; z < lmN; z++ {
+			for y := 0; y < lmN; y++ {
+				for x := 0; x < lmN; x++ {
+					if n.lm.body(n.lm.vox[z*lmN+y][x]) == label {
+						total++
+					}
+				}
+			}
+		}
+	} else {
+		var ok bool
+		label, ok = pick()
+		for try := 0; !ok && try < 4; try++ {
+			if !w.lmMerge(n) {
+				w.lmIngest(n, false)
+			}
+			label, ok = pick()
+		}
+		if !ok {
+			return
+		}
+		// the split region: a slanted half-space, so that block by block other supervoxels are cut
+		a, bb, cc := 1+w.r.Intn(2), w.r.Intn(2), w.r.Intn(2)
+		var vals []int
+		for z := 0; z < lmN; z++ {
+			for y := 0; y < lmN; y++ {
+				for x := 0; x < lmN; x++ {
+					if n.lm.body(n.lm.vox[z*lmN+y][x]) == label {
+						total++
+						vals = append(vals, a*x+bb*y+cc*z)
+					}
+				}
+			}
+		}
+		if total < 2 {
+			return
+		}
+		sort.Ints(vals)
+		cut := vals[len(vals)/3+w.r.Intn(len(vals)/3+1)]
+		in = func(x, y, z int) bool {
+			return n.lm.body(n.lm.vox[z*lmN+y][x]) == label && a*x+bb*y+cc*z < cut
+		}
+	}
+	type span struct{ x, y, z, n int32 }
+	var spans []span
+	nsplit := 0
+	for z := 0; z < lmN; z++ {
+		for y := 0; y < lmN; y++ {
+			for x := 0; x < lmN; {
+				if !in(x, y, z) {
+					x++
+					continue
+				}
+				x0 := x
+				for x < lmN && in(x, y, z) {
+					x++
+				}
+				spans = append(spans, span{int32(x0), int32(y), int32(z), int32(x - x0)})
+				nsplit += x - x0
+			}
+		}
+	}
+	if nsplit == 0 || nsplit == total {
+		return
+	}
+	var buf bytes.Buffer
+	buf.Write([]byte{0, 3, 0, 0})
+	binary.Write(&buf, binary.LittleEndian, uint32(0))
+	binary.Write(&buf, binary.LittleEndian, uint32(len(spans)))
+	for _, sp := range spans {
+		binary.Write(&buf, binary.LittleEndian, sp)
+	}
+	r, alive := s.ch.HTTP("POST", fmt.Sprintf("node/%s/lm/split/%d", n.uuid, label), buf.Bytes())
+	w.log("episode: lm split body %d (%d of %d voxels, %d runs, first run %v) at v%d -> %d %s", label, nsplit, total, len(spans), spans[0], n.v, r.Code, trunc(string(r.Body)))
+	if !alive {
+		s.dead = true
+		s.fail("C08 server-died body-split", "the server process died during a body split", s.ch.StderrTail(14))
+		return
+	}
+	if !r.OK() {
+		s.fail("C08 body-split-fails", "a body split by a well-formed sparse volume inside the body fails", r.String())
+		return
+	}
+	var out struct {
+		Label uint64 `json:"label"`
+	}
+	json.Unmarshal(r.Body, &out)
+	w.settle()
+	rr, _ := s.get(n, fmt.Sprintf("raw/0_1_2/%d_%d_%d/0_0_0?supervoxels=true", lmN, lmN, lmN), nil)
+	if !rr.OK() || len(rr.Body) != lmN*lmN*lmN*8 {
+		s.fail("C08 raw-fails", "the supervoxel volume cannot be read after a body split", rr.String())
+		return
+	}
+	type key struct {
+		o    uint64
+		side bool
+	}
+	oldIDs := map[uint64]bool{}
+	for _, row := range n.lm.vox {
+		for _, sv := range row {
+			oldIDs[sv] = true
+		}
+	}
+	relabel := map[key]uint64{}
+	owner := map[uint64]key{}
+	nv := make([][]uint64, len(n.lm.vox))
+	for z := 0; z < lmN; z++ {
+		for y := 0; y < lmN; y++ {
+			row := make([]uint64, lmN)
+			for x := 0; x < lmN; x++ {
+				o := n.lm.vox[z*lmN+y][x]
+				g := binary.LittleEndian.Uint64(rr.Body[((z*lmN+y)*lmN+x)*8:])
+				row[x] = g
+				if n.lm.body(o) != label {
+					if g != o {
+						s.fail("C08 body-split-touches-others", "a body split changed a voxel that does not belong to the split body", fmt.Sprintf("voxel (%d,%d,%d): supervoxel %d -> %d", x, y, z, o, g))
+						return
+					}
+					continue
+				}
+				k := key{o, in(x, y, z)}
+				if prev, ok := relabel[k]; ok && prev != g {
+					s.fail("C08 body-split-inconsistent", "after a body split the voxels of one supervoxel on one side of the split carry different supervoxel ids", fmt.Sprintf("voxel (%d,%d,%d): old supervoxel %d, in split=%v: %d and %d", x, y, z, o, k.side, prev, g))
+					return
+				}
+				relabel[k] = g
+				if ow, ok := owner[g]; ok && ow != k {
+					s.fail("C08 body-split-inconsistent", "after a body split one supervoxel id covers voxels of two old supervoxels or of both sides of the split", fmt.Sprintf("supervoxel %d: (%d,split=%v) and (%d,split=%v)", g, ow.o, ow.side, k.o, k.side))
+					return
+				}
+				owner[g] = k
+				if g == 0 || (g != o && oldIDs[g]) {
+					s.fail("C08 body-split-inconsistent", "after a body split a voxel carries label 0 or a supervoxel id that was already in use", fmt.Sprintf("voxel (%d,%d,%d): %d -> %d", x, y, z, o, g))
+					return
+				}
+			}
+			nv[z*lmN+y] = row
+		}
+	}
+	n.lm.vox = nv
+	for g, k := range owner {
+		if k.side {
+			n.lm.m[g] = out.Label
+		} else {
+			n.lm.m[g] = label
+		}
+		if g >= w.nextSV {
+			w.nextSV = g + 1
+		}
+	}
+	if out.Label >= w.nextSV {
+		w.nextSV = out.Label + 1
+	}
+	s.c.Count("episode body-split")
+	for _, x := range w.nodes {
+		if x.lm != nil {
+			s.checkVersion(x)
+		}
+	}
+	// a cleave of the remainder afterwards moves exactly what the index lists
+	if w.lmCleave(n) {
+		s.checkVersion(n)
+	}
+}
+
 func runC08(c *Ctx) {
 	c.Rule = "a case is one body (or one whole-version read) of one version of a labelmap after a generated history of block ingests, mutating block overwrites (new and re-used supervoxels, supervoxels spanning blocks, background), merges, cleaves, supervoxel splits and renumberings interleaved with commit / new version / branch, compared with a scan of the written voxels under that version's supervoxel→body mapping: size, supervoxels, supervoxel-sizes, index (per block and supervoxel), sparsevol (rles, srles), sparsevol-coarse, sparsevol-size, raw and blocks (mapped and supervoxels), labels, label/<pt>, mapping, sizes, listlabels, existing-labels, maxlabel — at every version, so ancestors and siblings are re-checked after later operations; or one label-index operation compared with the Lean model. non-trivial = the body has several supervoxels or spans several blocks; distinct by content"
 	c.c08Index(map[bool]int{false: 600, true: 6000}[c.Thorough])
@@ -724,6 +971,10 @@ func runC08(c *Ctx) {
 			}
 			if i == episodeAt+6 {
 				s.cleaveMergeBackEpisode()
+				continue
+			}
+			if i == episodeAt+8 || i == episodeAt+11 || i == episodeAt+13 {
+				s.bodySplitEpisode()
 				continue
 			}
 			open := w.open()
